@@ -243,7 +243,10 @@ def _program_instances(tier):
     from . import catalog
 
     return catalog.make_instances(tier, "C17", _program_body, "Elemwise._lower / Blockwise._lower + unify_chunks_expr inside programs",
-                                  select=lambda name: ("unaligned" in name or "where=" in name) and "map_blocks" not in name)
+                                  select=lambda name: (("unaligned" in name or "where=" in name) and "map_blocks" not in name)
+                                  # slices / takes pushed through an aligned sum or blockwise of differently chunked operands, under a consumer
+                                  # built against the advertised layout
+                                  or name.startswith(("map_blocks(first,(", "blockwise(twice,")))
 
 
 def instances(tier):
